@@ -371,8 +371,18 @@ fn order_shape(x: &RefPath, y: &RefPath, d: usize, evpn: bool, reading: u8) -> S
     }
     // the first later step at which the wrongly preferred path is better: the
     // step the subject apparently let decide
-    let s = (d + 1..9).find(|&s| step_cmp(s, x, y, evpn, reading) == Ordering::Less);
+    // (classification only: beyond 255 hops the subject's 8-bit hop counter may have made `x`
+    // look shorter, so the AS_PATH step also counts as "x better" when it is so modulo 256)
+    let s = (d + 1..9).find(|&s| {
+        step_cmp(s, x, y, evpn, reading) == Ordering::Less || (s == STEP_ASPATH && x.aslen.max(y.aslen) > 255 && x.aslen % 256 < y.aslen % 256)
+    });
     format!("{}-vs-{}", STEPS[d], s.map(|s| STEPS[s]).unwrap_or("none"))
+}
+
+/// First adjacent pair of the ranked list that is out of order under the reference.
+fn first_misordered(paths: &[PInfo], ranked: &[usize], evpn: bool, reading: u8) -> Option<(usize, usize)> {
+    let known: Vec<usize> = ranked.iter().copied().filter(|&i| i != UNKNOWN).collect();
+    known.windows(2).find(|w| ref_cmp(&paths[w[0]].r, &paths[w[1]].r, evpn, reading).0 == Ordering::Greater).map(|w| (w[0], w[1]))
 }
 
 /// Ranking clauses (membership, order, best, ECMP) for one ranked list.
@@ -458,8 +468,9 @@ fn judge_ranking(paths: &[PInfo], rk: &Ranking, evpn: bool, reading: u8, whence:
             if rk.ecmp.len() > want {
                 let m = rk.ranked[want];
                 let s = tied_before_rid(b, &paths[m].r, evpn, reading).unwrap();
+                let shape = if s == STEP_ASPATH && b.aslen.max(paths[m].r.aslen) > 255 { "as-path-length-over-255".to_string() } else { format!("includes-path-differing-at-{}", STEPS[s]) };
                 out.push((
-                    format!("C02/ecmp/includes-path-differing-at-{}", STEPS[s]),
+                    format!("C02/ecmp/{shape}"),
                     format!("{whence}: ecmp_paths {} includes {} which differs from the best path at step '{}' (before the router-id step)", labs(paths, &rk.ecmp), lab(paths, m), STEPS[s]),
                 ));
             } else if rk.ecmp.len() < want {
@@ -484,14 +495,17 @@ fn judge(paths: &[PInfo], obs: &Obs, evpn: bool, reading: u8) -> Vec<(String, St
     if let Some(&f) = g_known.iter().find(|&&i| paths[i].filtered) {
         out.push(("C02/eligibility/filtered-listed/global-view".into(), format!("destinations(Global, enable_filtered=false) lists the policy-rejected path {}", lab(paths, f))));
     }
-    if let Some(&h) = g_known.first() {
-        if paths[h].nh_invalid && !paths[h].filtered {
+    // the head of the list is what API clients read as the best path: when a best path was
+    // selected it must be the head.  (With no eligible path at all the listing of excluded
+    // paths is not judged: the statement only speaks about what is selected.)
+    if let (Some(&h), Some(b)) = (g_known.first(), obs.rk.best) {
+        if h != b && paths[h].nh_invalid && !paths[h].filtered {
             out.push((
                 "C02/eligibility/nexthop-invalid-listed/global-view".into(),
                 format!(
-                    "destinations(Global) lists {} first (the position API clients read as best) although its next hop is unreachable; selected best is {}",
+                    "destinations(Global) lists {} first (the position API clients read as best) although its next hop is unreachable; the selected best {} comes after it",
                     lab(paths, h),
-                    obs.rk.best.map(|b| lab(paths, b)).unwrap_or_else(|| "none".into())
+                    lab(paths, b)
                 ),
             ));
         }
@@ -933,7 +947,7 @@ fn two_v4() -> [Vec<u8>; KDIMS] {
 }
 
 fn three_v4() -> [Vec<u8>; KDIMS] {
-    dom([&[0], &[0, 1, 2], &[0, 1, 2], &[1, 2, 5, 6], &[0, 1, 2], &[0, 2, 4], &[0, 1], &[0, 1, 2], &[0, 1, 2], &[0, 1, 2]])
+    dom([&[0], &[0, 1, 2], &[0, 1, 2], &[1, 2, 5, 6], &[0, 1, 2], &[0, 2, 4], &[0, 1], &[0, 1], &[0, 1, 2], &[0, 1]])
 }
 
 fn reduced_evpn() -> [Vec<u8>; KDIMS] {
@@ -1217,6 +1231,7 @@ impl HistModel {
         let viewers: Vec<IpAddr> = (0..3u8).map(|p| peer_addr(p + 1)).collect();
         let obs = observe_table(&sys.t, fam, &net, &infos, &viewers);
         let (v, reading) = judge_any(&infos, &obs, self.evpn);
+        let mark = out.len();
         for (sig, what) in v {
             out.push((sig, format!("after {opname}: {what}")));
         }
@@ -1245,6 +1260,18 @@ impl HistModel {
                     if let Some((&a, &b)) = sc.iter().zip(live.iter()).find(|(a, b)| a != b) {
                         if a != UNKNOWN && b != UNKNOWN {
                             shape = STEPS[ref_cmp(&infos[a].r, &infos[b].r, self.evpn, 1).1.min(8)].to_string();
+                        }
+                    }
+                    // root cause first: when the fresh table orders the offending pair correctly, the
+                    // wrong order of the live list is a consequence of how it was re-marked/re-sorted,
+                    // not of the decision order itself -> the order clause is not reported a second time
+                    if let Some((x, y)) = first_misordered(&infos, live, self.evpn, reading) {
+                        let (px, py) = (sc.iter().position(|&z| z == x), sc.iter().position(|&z| z == y));
+                        if matches!((px, py), (Some(a), Some(b)) if a > b) {
+                            let mut k = mark;
+                            while k < out.len() {
+                                if out[k].0.starts_with("C02/order/") { out.remove(k); } else { k += 1; }
+                            }
                         }
                     }
                     out.push((
@@ -1365,8 +1392,10 @@ impl Model for HistModel {
         self.check(sys, &changes, &name, &mut cur_v);
         let mut now = BTreeSet::new();
         for (sig, what) in cur_v {
-            // history-dependent signatures carry the op name: compare on the clause+shape without it
-            let key = if sig.starts_with("C02/history-dependent/") { format!("C02/history-dependent/{}", sig.rsplit('/').next().unwrap_or("")) } else { sig.clone() };
+            // once the live list differs from what a fresh table gives, later differences are
+            // inherited damage (a list left unsorted is searched by bisection afterwards): the
+            // clause is reported on the step that breaks it only
+            let key = if sig.starts_with("C02/history-dependent/") { "C02/history-dependent".to_string() } else { sig.clone() };
             if !sys.broken.contains(&key) && !now.contains(&key) {
                 out.push((sig, what));
             }
@@ -1415,6 +1444,9 @@ const K_S: AttrK = AttrK { mm: 0, comm: true, lp: 2, asp: 1, origin: 0, cl: 0, o
 const K_W: AttrK = AttrK { mm: 0, comm: false, lp: 1, asp: 5, origin: 0, cl: 0, orig: None, med: false };
 const K_C1: AttrK = AttrK { mm: 0, comm: false, lp: 1, asp: 1, origin: 0, cl: 1, orig: Some(0x0a000005), med: false };
 const K_C2: AttrK = AttrK { mm: 0, comm: false, lp: 1, asp: 1, origin: 0, cl: 2, orig: Some(0x0a000004), med: false };
+const K_W2: AttrK = AttrK { mm: 0, comm: false, lp: 1, asp: 6, origin: 0, cl: 0, orig: None, med: false };
+const K_C1B: AttrK = AttrK { mm: 0, comm: false, lp: 1, asp: 1, origin: 0, cl: 1, orig: Some(0x0a000003), med: false };
+const K_M5X: AttrK = AttrK { mm: 2, comm: false, lp: 2, asp: 1, origin: 0, cl: 0, orig: None, med: false };
 const K_M5: AttrK = AttrK { mm: 2, comm: false, lp: 1, asp: 2, origin: 0, cl: 0, orig: None, med: false };
 const K_M0: AttrK = AttrK { mm: 1, comm: false, lp: 2, asp: 1, origin: 0, cl: 0, orig: None, med: false };
 const K_MN: AttrK = AttrK { mm: 0, comm: false, lp: 2, asp: 1, origin: 0, cl: 0, orig: None, med: false };
@@ -1424,6 +1456,29 @@ fn ins(peer: u8, id: u32, kind: u8, nh: u8) -> Op {
 }
 fn insf(peer: u8, id: u32, kind: u8, nh: u8) -> Op {
     Op::Insert { peer, id, kind, nh, filtered: true }
+}
+
+/// insert ops: every peer x every kind (path id 0), next hop N(peer+1) unless `nh` says otherwise
+fn all_ins(nkinds: usize, nh: fn(u8) -> u8) -> Vec<Op> {
+    let mut v = Vec::new();
+    for k in 0..nkinds as u8 {
+        for p in 0..3u8 {
+            v.push(ins(p, 0, k, nh(p)));
+        }
+    }
+    v
+}
+
+fn session_ops(peers: &[u8]) -> Vec<Op> {
+    let mut v = Vec::new();
+    for &p in peers {
+        v.push(Op::Restale { peer: p });
+        v.push(Op::MarkLlgr { peer: p });
+        v.push(Op::Reconnect { peer: p });
+        v.push(Op::DropStale { peer: p });
+        v.push(Op::DropLlgrStale { peer: p });
+    }
+    v
 }
 
 fn packs() -> Vec<HistModel> {
@@ -1437,6 +1492,9 @@ fn packs() -> Vec<HistModel> {
         ops,
         max_sessions: 2,
     };
+    let own_nh: fn(u8) -> u8 = |p| p;
+    let two_nh: fn(u8) -> u8 = |p| p % 2;
+    let cat = |parts: Vec<Vec<Op>>| parts.into_iter().flatten().collect::<Vec<Op>>();
     vec![
         // stale / LLGR-stale marking against every earlier and later step
         mk(
@@ -1444,13 +1502,8 @@ fn packs() -> Vec<HistModel> {
             false,
             [Ebgp, Ibgp, ConfedEbgp],
             [0x0a0a0030, 0x0a0a0020, 0x0a0a0010],
-            vec![("X", K_X), ("Y", K_Y), ("O", K_O)],
-            vec![
-                ins(0, 0, 1, 0), ins(1, 0, 1, 1), ins(2, 0, 1, 2), ins(1, 0, 0, 1), ins(0, 0, 2, 0), ins(2, 0, 0, 2),
-                Op::Restale { peer: 0 }, Op::Restale { peer: 1 }, Op::MarkLlgr { peer: 0 }, Op::MarkLlgr { peer: 1 },
-                Op::Reconnect { peer: 0 }, Op::Reconnect { peer: 1 }, Op::DropStale { peer: 0 }, Op::DropLlgrStale { peer: 0 },
-                Op::DropStale { peer: 1 }, Op::Drop { peer: 2 }, Op::Remove { peer: 1, id: 0 },
-            ],
+            vec![("Y", K_Y), ("X", K_X), ("O", K_O), ("Z", K_Z)],
+            cat(vec![all_ins(4, own_nh), session_ops(&[0, 1]), vec![Op::Drop { peer: 2 }, Op::Remove { peer: 0, id: 0 }, Op::Remove { peer: 1, id: 0 }, Op::Remove { peer: 2, id: 0 }]]),
         ),
         // LLGR_STALE community and add-path (two paths of one peer), ties before router-id
         mk(
@@ -1458,13 +1511,12 @@ fn packs() -> Vec<HistModel> {
             false,
             [Ebgp, Ebgp, Ibgp],
             [0x0a0a0010, 0x0a0a0020, 0x0a0a0030],
-            vec![("X", K_X), ("Y", K_Y), ("S", K_S), ("Z", K_Z)],
-            vec![
-                ins(0, 0, 1, 0), ins(0, 1, 2, 0), ins(1, 0, 3, 1), ins(1, 0, 2, 1), ins(2, 0, 0, 2), ins(2, 0, 2, 2), ins(0, 0, 0, 0),
-                Op::Restale { peer: 0 }, Op::MarkLlgr { peer: 0 }, Op::MarkLlgr { peer: 1 }, Op::Reconnect { peer: 0 },
-                Op::DropStale { peer: 0 }, Op::DropLlgrStale { peer: 0 }, Op::DropLlgrStale { peer: 1 },
-                Op::Remove { peer: 0, id: 1 }, Op::Drop { peer: 1 },
-            ],
+            vec![("Y", K_Y), ("X", K_X), ("S", K_S), ("Z", K_Z)],
+            cat(vec![
+                all_ins(4, own_nh),
+                vec![ins(0, 1, 0, 0), ins(0, 1, 2, 0), Op::Remove { peer: 0, id: 1 }, Op::Remove { peer: 0, id: 0 }, Op::Remove { peer: 2, id: 0 }, Op::Drop { peer: 1 }],
+                session_ops(&[0, 1]),
+            ]),
         ),
         // eligibility: import-filtered paths and next-hop validity flips
         mk(
@@ -1472,12 +1524,14 @@ fn packs() -> Vec<HistModel> {
             false,
             [Ebgp, Ibgp, Ebgp],
             [0x0a0a0010, 0x0a0a0020, 0x0a0a0030],
-            vec![("X", K_X), ("Y", K_Y), ("Z", K_Z)],
-            vec![
-                ins(0, 0, 0, 0), ins(1, 0, 1, 1), ins(2, 0, 2, 0), ins(2, 0, 1, 1), insf(0, 0, 0, 0), insf(1, 0, 0, 1), ins(1, 0, 0, 0),
-                Op::Nh { nh: 0, up: false }, Op::Nh { nh: 0, up: true }, Op::Nh { nh: 1, up: false }, Op::Nh { nh: 1, up: true },
-                Op::Restale { peer: 0 }, Op::MarkLlgr { peer: 1 }, Op::Reconnect { peer: 0 }, Op::DropStale { peer: 0 }, Op::Remove { peer: 2, id: 0 }, Op::Drop { peer: 1 },
-            ],
+            vec![("Y", K_Y), ("X", K_X), ("Z", K_Z)],
+            cat(vec![
+                all_ins(3, two_nh),
+                vec![insf(0, 0, 1, 0), insf(1, 0, 1, 1), ins(1, 0, 1, 0), ins(2, 0, 0, 1)],
+                vec![Op::Nh { nh: 0, up: false }, Op::Nh { nh: 0, up: true }, Op::Nh { nh: 1, up: false }, Op::Nh { nh: 1, up: true }],
+                session_ops(&[0]),
+                vec![Op::Remove { peer: 2, id: 0 }, Op::Remove { peer: 0, id: 0 }, Op::Drop { peer: 1 }],
+            ]),
         ),
         // route server: three RS clients (the RS-local view)
         mk(
@@ -1485,12 +1539,13 @@ fn packs() -> Vec<HistModel> {
             false,
             [RsClient, RsClient, RsClient],
             [0x0a0a0030, 0x0a0a0020, 0x0a0a0010],
-            vec![("X", K_X), ("Y", K_Y), ("O", K_O)],
-            vec![
-                ins(0, 0, 1, 0), ins(1, 0, 1, 1), ins(2, 0, 1, 2), ins(0, 0, 0, 0), ins(1, 0, 2, 1), ins(2, 0, 0, 2), insf(1, 0, 0, 1),
-                Op::Nh { nh: 1, up: false }, Op::Nh { nh: 1, up: true },
-                Op::Restale { peer: 0 }, Op::MarkLlgr { peer: 2 }, Op::Reconnect { peer: 0 }, Op::DropStale { peer: 0 }, Op::Drop { peer: 1 }, Op::Remove { peer: 2, id: 0 },
-            ],
+            vec![("Y", K_Y), ("X", K_X), ("O", K_O)],
+            cat(vec![
+                all_ins(3, own_nh),
+                vec![insf(1, 0, 1, 1), insf(2, 0, 1, 2), Op::Nh { nh: 1, up: false }, Op::Nh { nh: 1, up: true }],
+                session_ops(&[0]),
+                vec![Op::MarkLlgr { peer: 2 }, Op::Drop { peer: 1 }, Op::Remove { peer: 2, id: 0 }, Op::Remove { peer: 0, id: 0 }],
+            ]),
         ),
         // route reflection: CLUSTER_LIST / ORIGINATOR_ID steps after the stale step
         mk(
@@ -1498,12 +1553,8 @@ fn packs() -> Vec<HistModel> {
             false,
             [IbgpRrClient, Ibgp, Ibgp],
             [0x0a0a0010, 0x0a0a0020, 0x0a0a0030],
-            vec![("Y", K_Y), ("C1", K_C1), ("C2", K_C2)],
-            vec![
-                ins(0, 0, 0, 0), ins(0, 0, 1, 0), ins(1, 0, 1, 1), ins(1, 0, 2, 1), ins(2, 0, 2, 2), ins(2, 0, 0, 2),
-                Op::Restale { peer: 0 }, Op::Restale { peer: 1 }, Op::MarkLlgr { peer: 0 }, Op::MarkLlgr { peer: 2 },
-                Op::Reconnect { peer: 0 }, Op::Reconnect { peer: 1 }, Op::DropStale { peer: 0 }, Op::DropStale { peer: 1 }, Op::DropLlgrStale { peer: 2 }, Op::Remove { peer: 2, id: 0 },
-            ],
+            vec![("Y", K_Y), ("C1", K_C1), ("C2", K_C2), ("C1b", K_C1B)],
+            cat(vec![all_ins(4, own_nh), session_ops(&[0, 1]), vec![Op::MarkLlgr { peer: 2 }, Op::DropLlgrStale { peer: 2 }, Op::Remove { peer: 2, id: 0 }, Op::Remove { peer: 0, id: 0 }]]),
         ),
         // AS_PATH beyond 255 hops against short ones
         mk(
@@ -1511,11 +1562,8 @@ fn packs() -> Vec<HistModel> {
             false,
             [Ebgp, Ebgp, Ibgp],
             [0x0a0a0010, 0x0a0a0020, 0x0a0a0030],
-            vec![("Y", K_Y), ("W", K_W), ("O", K_O)],
-            vec![
-                ins(0, 0, 1, 0), ins(1, 0, 0, 1), ins(2, 0, 2, 2), ins(1, 0, 1, 1), ins(0, 0, 0, 0),
-                Op::Restale { peer: 0 }, Op::Reconnect { peer: 0 }, Op::DropStale { peer: 0 }, Op::Remove { peer: 1, id: 0 }, Op::Drop { peer: 2 },
-            ],
+            vec![("Y", K_Y), ("W", K_W), ("W2", K_W2), ("O", K_O)],
+            cat(vec![all_ins(4, own_nh), session_ops(&[0]), vec![Op::Remove { peer: 1, id: 0 }, Op::Drop { peer: 2 }]]),
         ),
         // EVPN type-2: MAC mobility ahead of everything, also after re-marking
         mk(
@@ -1523,12 +1571,8 @@ fn packs() -> Vec<HistModel> {
             true,
             [Ebgp, Ibgp, Ebgp],
             [0x0a0a0010, 0x0a0a0020, 0x0a0a0030],
-            vec![("M5", K_M5), ("M0", K_M0), ("Mn", K_MN)],
-            vec![
-                ins(0, 0, 0, 0), ins(1, 0, 1, 1), ins(2, 0, 2, 2), ins(0, 0, 1, 0), ins(1, 0, 0, 1), ins(2, 0, 0, 2),
-                Op::Restale { peer: 0 }, Op::Restale { peer: 1 }, Op::MarkLlgr { peer: 1 }, Op::MarkLlgr { peer: 2 },
-                Op::Reconnect { peer: 0 }, Op::Reconnect { peer: 1 }, Op::DropStale { peer: 0 }, Op::DropLlgrStale { peer: 1 }, Op::Remove { peer: 2, id: 0 }, Op::Drop { peer: 2 },
-            ],
+            vec![("M5", K_M5), ("M0", K_M0), ("Mn", K_MN), ("M5x", K_M5X)],
+            cat(vec![all_ins(4, own_nh), session_ops(&[0, 1]), vec![Op::MarkLlgr { peer: 2 }, Op::Remove { peer: 2, id: 0 }, Op::Drop { peer: 2 }]]),
         ),
     ]
 }
@@ -1558,7 +1602,7 @@ pub fn run(replay: Option<&str>) -> Report {
         return rep;
     }
     let thorough = rep.thorough();
-    let depth = if thorough { 6 } else { 4 };
+    let depth = if thorough { 9 } else { 6 };
     rep.rule = format!(
         "(a) path kinds = product of small colliding per-step domains (LLGR-stale flag/community, LOCAL_PREF absent/100/200, AS_PATH shapes up to 510 hops, ORIGIN, role, GR-stale, CLUSTER_LIST, router-id/ORIGINATOR_ID, eligibility; MAC mobility for EVPN type-2); all ordered pairs of the reduced product and all ordered triples over a cover, each set inserted into a fresh real Table in every arrival order, oracle after every insert; {} \
          (b) explicit-state BFS over histories on one prefix (insert/replace/remove/drop/restale/restale_llgr/drop_stale/drop_llgr_stale/next-hop flips/reconnect), {} packs, depth {}, oracle + from-scratch comparison after every step. \
